@@ -29,7 +29,8 @@ Leaves ==
    [t |-> "cycle", key |-> [named |-> TRUE, g |-> "g"], vals |-> <<S("x"), S("y"), S("z")>>],
    [t |-> "cycle", key |-> [named |-> TRUE, g |-> "h"], vals |-> <<V("a"), N(2)>>],
    [t |-> "include", name |-> S("p"), args |-> <<Arg("b", S("i"))>>],
-   [t |-> "include", name |-> V("pv"), args |-> <<>>],
+   [t |-> "include", name |-> V("pv"), args |-> <<>>], [t |-> "include", name |-> V("pv"), args |-> <<Arg("pv", S("p"))>>],
+   [t |-> "assign", var |-> "a", x |-> N(1)], [t |-> "assign", var |-> "i", x |-> N(2)], [t |-> "assign", var |-> "b", x |-> S("d")],
    [t |-> "render", name |-> S("p"), mode |-> "plain", args |-> <<Arg("a", V("a"))>>],
    [t |-> "render", name |-> S("p2"), mode |-> "for", src |-> Range(N(1), N(2)), as |-> "a", args |-> <<>>],
    [t |-> "render", name |-> S("p2"), mode |-> "with", with |-> V("c"), as |-> "b", args |-> <<>>],
